@@ -17,6 +17,8 @@ where the code touches the node's own availability record or the set of stored c
 * `localRead f cid` — `netstore.Get` found `cid` locally under `f`'s context and reports
   `OnChunkRetrieved(cid, root, self)` — for data, manifest and intermediate chunks alike;
 * `retrieved f cid` — `retrieval.retrieveChunk`: `OnChunkRetrieved(cid, root, peer)` and then `Put`;
+* `transferred f cid o` — the retrieval handler served `cid` to overlay `o ≠ self`:
+  `OnChunkTransferred(cid, root, o, self)` creates / updates the record kept FOR `o`;
 * `store c` — any other chunk stored;
 * `remove f R` — `DelFile(root)` from the API or from garbage collection: the chunks `R` are
   removed and all tables of `f` cleared;
@@ -33,6 +35,7 @@ inductive Ev
   | create (f : FileS)
   | localRead (f : FileS) (cid : Addr)
   | retrieved (f : FileS) (cid : Addr)
+  | transferred (f : FileS) (cid : Addr) (o : Ov)
   | store (c : Addr)
   | remove (f : FileS) (R : List Addr)
   | reinit
@@ -41,6 +44,7 @@ def step (m : M) : Ev → M
   | .create f => { m with ci := putNeighbor m.ci f.root self f.cids.length }
   | .localRead f cid => { m with ci := markPresent m.ci f self cid }
   | .retrieved f cid => { ci := markPresent m.ci f self cid, stored := fun c => c == cid || m.stored c }
+  | .transferred f cid o => { m with ci := markPresent (putNeighbor m.ci f.root o f.cids.length) f o cid }
   | .store c => { m with stored := fun x => x == c || m.stored x }
   | .remove f R => { ci := delFile m.ci f.root, stored := fun x => m.stored x && !R.contains x }
   | .reinit => { m with ci := reinit m.ci }
@@ -56,6 +60,7 @@ def Ev.ok (file : Addr → FileS) (m : M) : Ev → Prop
   | .create f => file f.root = f
   | .localRead f cid => file f.root = f ∧ m.stored cid = true
   | .retrieved f _ => file f.root = f
+  | .transferred f _ o => file f.root = f ∧ o ≠ self
   | .store _ => True
   | .remove f R => file f.root = f ∧ ∀ r, r ≠ f.root → tracked m r → ∀ c ∈ (file r).cids, c ∉ R
   | .reinit => True
@@ -144,6 +149,14 @@ theorem C17_step_invariant (file : Addr → FileS) (m : M) (e : Ev) (hi : Inv fi
       · simp only [hr, if_false] at hb
         have := hi r b hb
         exact ⟨this.1, mono _ _ this.2⟩
+  | transferred f cid o =>
+    obtain ⟨_, ho⟩ := hok
+    intro r b hb
+    simp only [step] at hb
+    have h1 := selfBits_markPresent_other (putNeighbor m.ci f.root o f.cids.length) f r o cid ho
+    have h2 := selfBits_putNeighbor_other m.ci f.root r o f.cids.length ho
+    rw [h1.1, h1.2, h2.1, h2.2] at hb
+    exact hi r b hb
   | store c =>
     intro r b hb
     have := hi r b hb
@@ -222,6 +235,46 @@ theorem C17_delete_clears_all (s : State) (root : Addr) :
     (reinit (delFile s root)).mem.mentions root = false := by
   simp [delFile, onBoth, reinit, Tables.mentions, lookup_del]
 
+/-- Clause 3, extended to the records the node keeps for OTHER overlays (the peers it served,
+    `chunk-<root>-<peer>`) and stated on the state-store keys themselves: after `DelFile` no key of
+    any prefix and any overlay mentions the root — in the persisted image, in memory, and in memory
+    after a restart from the persisted image — and the availability table has no record of the root
+    for any overlay. -/
+theorem C17_delete_clears_all_keys (s : State) (root : Addr) :
+    (∀ k ∈ (delFile s root).disk.keys, k.root ≠ root) ∧
+    (∀ k ∈ (delFile s root).mem.keys, k.root ≠ root) ∧
+    (∀ k ∈ (reinit (delFile s root)).mem.keys, k.root ≠ root) ∧
+    (∀ o, (delFile s root).disk.pres root o = none ∧ (delFile s root).mem.pres root o = none ∧
+      (reinit (delFile s root)).mem.pres root o = none) := by
+  have key : ∀ t : Tables,
+      ∀ k ∈ Tables.keys ⟨del t.presence root, del t.discover root, del t.source root⟩, k.root ≠ root := by
+    intro t k hk
+    simp only [Tables.keys, del, List.mem_append, List.mem_flatMap, List.mem_filter, List.mem_map] at hk
+    rcases hk with ((⟨e, ⟨_, he⟩, o, _, rfl⟩ | ⟨e, ⟨_, he⟩, o, _, rfl⟩) | ⟨e, ⟨_, he⟩, o, _, rfl⟩) | ⟨e, ⟨_, he⟩, hk⟩
+    · simpa [Key.root] using he
+    · simpa [Key.root] using he
+    · simpa [Key.root] using he
+    · cases hp : e.2.pyramid with
+      | none => simp [hp] at hk
+      | some o => simp [hp] at hk; subst hk; simpa [Key.root] using he
+  refine ⟨key s.disk, key s.mem, key s.disk, ?_⟩
+  intro o
+  simp [delFile, onBoth, reinit, Tables.pres, lookup_del]
+
+/-- `delPresence` must delete by the prefix `chunk-<root>`: deleting only the node's own persisted
+    record (`chunk-<root>-<self>`, model `delFileSelfOnly`) leaves the record of a served peer in the
+    state store — memory looks clean — and the restart loads it again. -/
+theorem C17_self_only_delete_counterexample :
+    let f : FileS := { root := 1, subs := [[5, 6]], hash := [1, 9] }
+    let s := markPresent (putNeighbor (markPresent (putNeighbor {} 1 self 2) f self 5) 1 1 2) f 1 6
+    s.disk.keys = [.chunk 1 0, .chunk 1 1] ∧
+    (delFileSelfOnly s 1).mem.keys = [] ∧
+    (delFileSelfOnly s 1).disk.keys = [.chunk 1 1] ∧
+    (reinit (delFileSelfOnly s 1)).mem.pres 1 1 = some [false, true] ∧
+    -- the code's function on the same state
+    (delFile s 1).disk.keys = [] ∧ (reinit (delFile s 1)).mem.keys = [] := by
+  decide
+
 /-- The defect repaired by the C17 `fix:` commit: with `getCidSort` (position 0 for an address
     that is not a data chunk) a local read of a manifest / intermediate chunk (here 9) marks data
     chunk 0 (here 5), which is not stored; with `getCidSortOK` (the model) it does not. -/
@@ -234,6 +287,18 @@ theorem C17_unfixed_counterexample :
   decide
 
 /-! ### non-vacuity -/
+
+/-- a history in which the file is served to a peer (overlay 1): the peer's record exists in both
+    images before the removal (so `C17_delete_clears_all_keys` deletes something for an overlay other
+    than the node itself), the node's own record is untouched by the transfer -/
+example :
+    let f : FileS := { root := 1, subs := [[5, 6, 5]], hash := [1, 9] }
+    let es := [Ev.create f, .store 5, .localRead f 5, .transferred f 5 1, .transferred f 9 1]
+    Valid (fun _ => f) {} es ∧ (run {} es).ci.disk.keys = [.chunk 1 0, .chunk 1 1] ∧
+    (run {} es).ci.disk.pres 1 1 = some [true, false] ∧ selfBits (run {} es).ci.mem 1 = some [true, false] ∧
+    (run {} (es ++ [.remove f [5]])).ci.disk.keys = [] := by
+  refine ⟨?_, by decide, by decide, by decide, by decide⟩
+  simp [Valid, Ev.ok, step, self]
 
 example :
     let f : FileS := { root := 1, subs := [[5, 6, 5]], hash := [1, 9] }
